@@ -124,7 +124,7 @@ def models(tier):
     # remaining Lagrange-type models with state variables, both back-ends; finite-strain viscoelasticity
     MP = [0.039, 0.371, 0.174, 2.41, 0.0094, 6.84, 5.65, 0.244]
     add("jax.morph", fj.Material(jl.morph, p=MP, nstatevars=13), sv=lambda n: np.zeros((13, n, 1)), hyper=False, iso=False)
-    if tier != "quick":
+    if True:
         add("tt.morph_representative_directions", fem.MaterialAD(tl.morph_representative_directions, p=MP, nstatevars=84),
             sv=lambda n: np.zeros((84, n, 1)), hyper=False, iso=False)
         add("jax.morph_representative_directions", fj.Material(jl.morph_representative_directions, p=MP, nstatevars=84),
@@ -420,6 +420,15 @@ def c12(out, a):
     if "jax.morph_representative_directions" in M:
         sv84 = np.zeros((84, n, 1))
         agree("agree-morph-rd-jax-tt", M["jax.morph_representative_directions"], M["tt.morph_representative_directions"], sva=sv84, svb=sv84)
+    # ... and with a load history behind them: state variables of a previous, LARGER deformation (unloading state), same for both
+    Fbig = np.eye(3)[:, :, None, None] + 2.0 * (F - np.eye(3)[:, :, None, None])
+    for nm, nsv in (("morph_representative_directions", 84),):
+        if "jax." + nm in M:
+            svh = np.asarray(M["tt." + nm]["um"].gradient([Fbig, np.zeros((nsv, n, 1))])[1], float)
+            # (not for the 3-d MORPH twins: the jax version perturbs its eigenvalue problems by diag(1e-4, -1e-4, 0) -- the regularisation
+            #  of the jax principal-stretch models -- which on the small rate tensor of an unloading step shifts stress and tangent by
+            #  several per cent; the representative-directions twins agree tightly)
+            agree("agree-%s-history-jax-tt" % nm, M["jax." + nm], M["tt." + nm], sva=svh.copy(), svb=svh.copy(), tol=64)
     # linear elasticity: component-wise <-> tensor notation <-> small-strain framework
     le, lt = fem.LinearElastic(E=2.0, nu=0.25), fem.constitution.LinearElasticTensorNotation(E=2.0, nu=0.25)
     agree("agree-LinearElastic-tensor", wrap(le), wrap(lt))
